@@ -29,8 +29,11 @@ type Stress struct {
 	SleepUs   []int  // handler sleep per request ordinal (cyclic), microseconds
 	Mode      string // blind: Shutdown is retried from the very beginning, without waiting for the start notification
 	//                  timed: Shutdown DelayUs after the start notification
-	DelayUs     int
-	Restarts    int    // number of start/stop cycles on the same Server value
+	DelayUs    int
+	Restarts   int      // number of start/stop cycles on the same Server value
+	Seq        []string // transport of the 2nd, 3rd … cycle (empty: as the first): restarts that switch transport
+	KeepFields bool     // a restart leaves Listener / PacketConn of the previous run in the Server value where the API
+	//                      allows it (ListenAndServe overwrites only the field it uses; ActivateAndServe on a PacketConn ignores a stale Listener)
 	MaxTCP      int    // Server.MaxTCPQueries
 	SecondStart string // timed mode: "" | activate | listen – a second ActivateAndServe / ListenAndServe once started (must fail at once)
 }
@@ -45,6 +48,16 @@ func genStress(t *rapid.T) Stress {
 		Restarts:  rapid.SampledFrom([]int{1, 1, 2, 3}).Draw(t, "cycles"),
 	}
 	s.MaxTCP = rapid.SampledFrom([]int{-1, -1, 0, 0, 1, 2, 128}).Draw(t, "maxTCP")
+	if s.Restarts > 1 && rapid.IntRange(0, 9).Draw(t, "switch") < 6 {
+		// a Server value that served one transport is restarted on another one
+		if rapid.Bool().Draw(t, "firstLns") {
+			s.Transport = rapid.SampledFrom([]string{"lnsUDP", "lnsUDP", "lnsTCP"}).Draw(t, "transport0")
+		}
+		for i := 1; i < s.Restarts; i++ {
+			s.Seq = append(s.Seq, rapid.SampledFrom([]string{"lnsTCP", "lnsTCP", "lnsUDP", "lnsUDP", "realTCP", "realUDP", "memTCP", "memPacket"}).Draw(t, "transportN"))
+		}
+		s.KeepFields = rapid.IntRange(0, 3).Draw(t, "keepFields") > 0
+	}
 	if s.Mode == "timed" {
 		s.SecondStart = rapid.SampledFrom([]string{"", "", "activate", "listen"}).Draw(t, "secondStart")
 	}
@@ -54,6 +67,8 @@ func genStress(t *rapid.T) Stress {
 	}
 	return s
 }
+
+func packetTransport(tr string) bool { return strings.HasSuffix(tr, "UDP") || tr == "memPacket" }
 
 type stressRun struct {
 	nonce    string
@@ -99,6 +114,21 @@ func checkStress(s Stress) error {
 		overlapAny = overlapAny || ov
 	}
 	cl := []string{"transport=" + s.Transport, "mode=" + s.Mode, fmt.Sprintf("cycles=%d", s.Restarts)}
+	prev := s.Transport
+	for _, tr := range s.Seq {
+		cl = append(cl, "transport="+tr)
+		if packetTransport(prev) != packetTransport(tr) {
+			if packetTransport(prev) {
+				cl = append(cl, "restart:datagram->stream")
+			} else {
+				cl = append(cl, "restart:stream->datagram")
+			}
+			if s.KeepFields {
+				cl = append(cl, "restart-with-stale-fields")
+			}
+		}
+		prev = tr
+	}
 	if overlapAny {
 		cl = append(cl, "sd-while-handler-running")
 	}
@@ -111,6 +141,9 @@ func checkStress(s Stress) error {
 
 func (r *stressRun) cycle(srv *dns.Server, cycle int) (overlap bool, err error) {
 	s := r.s
+	if cycle > 0 && cycle-1 < len(s.Seq) {
+		s.Transport = s.Seq[cycle-1]
+	}
 	r.returned.Store(false)
 	var (
 		lis    *memnet.Listener
@@ -119,7 +152,11 @@ func (r *stressRun) cycle(srv *dns.Server, cycle int) (overlap bool, err error) 
 		pc     *memnet.PacketConn
 		udp    *net.UDPConn
 	)
-	srv.Listener, srv.PacketConn = nil, nil
+	if !s.KeepFields {
+		srv.Listener, srv.PacketConn = nil, nil
+	} else if s.Transport == "memTCP" || s.Transport == "realTCP" {
+		srv.PacketConn = nil // ActivateAndServe serves the PacketConn when both are set
+	}
 	switch s.Transport {
 	case "memTCP":
 		lis = memnet.NewListener(nil, "")
